@@ -14,7 +14,7 @@ open Gen Q13
 
 /-- a structural-stream decoder that cannot panic -/
 def StructDec.safe (sd : StructDec) : Prop :=
-  (∀ d c s, sd.xref d c ≠ .panic s) ∧ (∀ d c s, sd.objstm d c ≠ .panic s)
+  (∀ d c s, sd.xref d c ≠ .panic s) ∧ (∀ d c s, sd.objstm d c ≠ .panic s) ∧ (∀ d s, sd.deferred d ≠ .panic s)
 
 theorem xrefAndTrailerG_ne_panic (sd : StructDec) (h : sd.safe) (inp : Bytes) (s : String) :
     xrefAndTrailerG sd inp ≠ .panic s := by
@@ -56,13 +56,14 @@ theorem prevLoopG_ne_panic (sd : StructDec) (h : sd.safe) (buf : Bytes) : ∀ (f
 
 theorem loadStepG_noPanic (sd : StructDec) (h : sd.safe) (buf : Bytes) (x : XTable) (n : Nat)
     (acc : Outcome (LObjects × List Block)) (e : Nat × XEntry) (ha : acc.noPanic) : (loadStepG sd buf x n acc e).noPanic := by
-  have ho := h.2
+  have ho := h.2.1
+  have hd := h.2.2
   rw [noPanic_iff] at *
   intro s
   unfold loadStepG
   repeat' split
   all_goals (first | (simp_all; done) | skip)
-  all_goals (rename_i hp; exact absurd hp (ho _ _ _))
+  all_goals (rename_i hp; first | exact absurd hp (ho _ _ _) | exact absurd hp (hd _ _))
 
 theorem foldl_loadStepG_noPanic (sd : StructDec) (h : sd.safe) (buf : Bytes) (x : XTable) (n : Nat) :
     ∀ (l : List (Nat × XEntry)) (acc : Outcome (LObjects × List Block)), acc.noPanic →
@@ -102,7 +103,7 @@ theorem decompress_no_panic (ext : Ext) (st : Strm) (s : String) : decompress ex
 
 /-- `Stream::decompress` over the specification codecs followed by the unfiltered decoders cannot panic -/
 theorem flateDec_safe : flateDec.safe := by
-  refine ⟨?_, ?_⟩
+  refine ⟨?_, ?_, ?_⟩
   · intro d c s
     simp only [flateDec]
     split
@@ -122,6 +123,16 @@ theorem flateDec_safe : flateDec.safe := by
         · split <;> simp_all
         · simp
     · split <;> simp_all
+  · intro d s
+    simp only [flateDec]
+    split
+    · split
+      · simp
+      · split
+        · split <;> simp
+        · simp
+        · rename_i hp; exact absurd hp (decompress_no_panic _ _ _)
+    · simp
 
 /-- **C04, Flate-coded structural streams included**: the reader the driver runs against lopdf —
 `loadDocF2`, every schedule — never panics, for every byte string. -/
